@@ -344,14 +344,20 @@ func vf14Frame(objs ...*object.Object) []byte {
 	return out
 }
 
+var vf14ErrInjected = errors.New("verif: injected component failure")
+
 func TestVerif_C14(t *testing.T) {
 	r := verifkit.Start(t, "C14", "exploration")
 	defer r.Finish()
-	r.SetRule("case = shard (with/without write-cache, real 3 ms GC timer or manual GC passes) filled in read-write with plain, expiring, tombstoned, locked, garbage-marked objects, an inhumed and a long-unpaid container, unflushed write-cache content; then a sequence of 1..2 read-only modes (RO, DRO, RO->DRO, DRO->RO); in each mode 40..120 random steps (put/re-put/tombstone/lock, delete, mark default/redundant, container inhume/delete, restore, revive, flush, GC pass, epoch event via channel or direct, dump, reads); persisted-state snapshot compared with the one taken at mode entry after EVERY step; distinct = (mode, write-cache, step kind, outcome class)")
-	r.Assume("metabase content is read through an independent read-only bbolt handle (shared flock) while the shard is read-only or degraded")
+	r.SetRule("case = shard (with/without write-cache, real 3 ms GC timer or manual GC passes) filled in read-write with plain, expiring, tombstoned, locked, garbage-marked objects, removed containers (objects pending / objects already collected but record pending), a long-unpaid container, unflushed write-cache content, an epoch 0..2 announced before; GC backlog staged (untouched / one pass / removed-container record pending / drained); the read-only period is ENTERED by run-time SetMode, by restart of the stopped shard with the mode in its configuration (WithMode+Open+Init), or by run-time SetMode followed by a return to read-write aborted by an injected component failure; first mode RO or DRO, optionally followed by the other one; in each mode 40..120 steps, the first 22 a permutation of ALL step kinds (put/re-put/tombstone/lock, delete, mark default/redundant, container inhume/delete, restore, revive, flush, GC pass, epoch event via channel or direct, dump, reads), then random; persisted-state snapshot compared per component with the one taken at mode entry after EVERY step; distinct = (mode, entry, write-cache, step kind, outcome class)")
+	r.Assume("metabase content is read through an independent read-only bbolt handle (shared flock) while the metabase is opened read-only or closed; when the shard keeps it opened writable (exclusive flock) committed content is read in a read transaction of the shard's own handle")
 	r.Assume("mode error = errors.Is(err, shard.ErrReadOnlyMode) || errors.Is(err, shard.ErrDegradedMode)")
+	r.Assume("a shard 'is read-only' when Shard.GetMode reports READ_ONLY or DEGRADED_READ_ONLY, however it got there")
 
-	nCases := r.Pick(12, 120)
+	hooks := verifkit.InstallHooks()
+	defer hooks.Uninstall()
+
+	nCases := r.Pick(24, 240)
 	base := os.Getenv("VERIF_SCRATCH")
 	if base == "" {
 		base = t.TempDir()
@@ -362,27 +368,45 @@ func TestVerif_C14(t *testing.T) {
 	}
 	defer os.RemoveAll(root)
 	owner := verifkit.RandUser(r.Rand("owner", 0))
-	modeSeqs := [][]mode.Mode{{mode.ReadOnly}, {mode.DegradedReadOnly}, {mode.ReadOnly, mode.DegradedReadOnly}, {mode.DegradedReadOnly, mode.ReadOnly}}
-	dwellLeft := r.Pick(2, 10)
+	entries := []string{"runtime", "config", "aborted-rw-return"}
+	stages := []string{"untouched", "one-pass", "container-record-pending", "drained"}
+	firstModes := []mode.Mode{mode.ReadOnly, mode.DegradedReadOnly}
+	dwellLeft := r.Pick(8, 40)
 
 	for ci := 0; ci < nCases; ci++ {
 		rng := r.Rand("case", ci)
-		withWC := ci%2 == 0
-		realTimer := ci%3 == 0
-		seq := modeSeqs[(ci/2)%len(modeSeqs)]
+		// entry x stage x first mode are enumerated (24 combinations), the rest is drawn
+		entry := entries[ci%3]
+		stage := stages[(ci/3)%4]
+		seq := []mode.Mode{firstModes[(ci/12)%2]}
+		if rng.IntN(2) == 0 {
+			seq = append(seq, firstModes[1-(ci/12)%2])
+		}
+		withWC := rng.IntN(2) == 0
+		realTimer := rng.IntN(3) == 0
+		epoch0 := uint64(rng.IntN(3))
 		dir := filepath.Join(root, fmt.Sprintf("case%d", ci))
-		desc := map[string]any{"case": ci, "write_cache": withWC, "real_gc_timer": realTimer, "modes": fmt.Sprint(seq)}
-		env, err := vf14New(dir, rng, withWC, realTimer)
+		desc := map[string]any{"case": ci, "entry": entry, "gc_backlog_stage": stage, "write_cache": withWC, "real_gc_timer": realTimer, "modes": fmt.Sprint(seq), "epoch_before": epoch0}
+		// a shard that is going to be restarted is filled with manually driven GC so that the
+		// staged backlog is what the restarted shard finds
+		env, err := vf14New(dir, rng, withWC, realTimer && entry != "config")
 		if err != nil {
 			r.Inconclusive(fmt.Sprintf("case %d: build shard: %v", ci, err))
 			return
 		}
 		sh := env.sh
-		stop := func() { _ = sh.Close(); _ = os.RemoveAll(dir) }
+		shClosed := false
+		stop := func() {
+			if !shClosed {
+				_ = sh.Close()
+			}
+			_ = os.RemoveAll(dir)
+		}
 
 		// ---- fill in read-write ----
 		cnrs := []cid.ID{verifkit.RandCID(rng), verifkit.RandCID(rng), verifkit.RandCID(rng)}
-		cnrGone, cnrUnpaid := verifkit.RandCID(rng), verifkit.RandCID(rng)
+		cnrGone, cnrCollected, cnrGoneLate, cnrUnpaid := verifkit.RandCID(rng), verifkit.RandCID(rng), verifkit.RandCID(rng), verifkit.RandCID(rng)
+		dead := map[cid.ID]bool{cnrGone: true, cnrCollected: true, cnrGoneLate: true}
 		var uni []*vf14Obj
 		put := func(o *object.Object) bool {
 			if err := sh.Put(o, nil); err != nil {
@@ -434,14 +458,71 @@ func TestVerif_C14(t *testing.T) {
 			add(newObj(cnrGone), false, "in-removed-container")
 			add(newObj(cnrUnpaid), true, "in-unpaid-container")
 		}
+		for i, n := 0, 1+rng.IntN(3); i < n && okFill; i++ {
+			add(newObj(cnrCollected), false, "in-removed-container-collected-early")
+		}
 		if !okFill {
 			stop()
 			return
 		}
-		if err := sh.InhumeContainer(cnrGone); err != nil {
-			r.Inconclusive("fill: inhume container: " + err.Error())
-			stop()
+		fillErr := func(what string, err error) bool {
+			if err != nil {
+				r.Inconclusive(fmt.Sprintf("case %d: fill: %s: %v", ci, what, err))
+				stop()
+				return true
+			}
+			return false
+		}
+		if fillErr("inhume container", sh.InhumeContainer(cnrGone)) {
 			return
+		}
+		if rng.IntN(2) == 0 {
+			err = sh.InhumeContainer(cnrCollected)
+		} else {
+			err = sh.DeleteContainer(context.Background(), cnrCollected)
+		}
+		if fillErr("remove container", err) {
+			return
+		}
+		if epoch0 > 0 { // an epoch < 3 announced in read-write (the unpaid container is not yet due)
+			env.epoch.v.Store(epoch0)
+			sh.setEpochEventHandler(EventNewEpoch(epoch0))
+		}
+		// ---- stage the GC backlog (steered by the metabase's own garbage listing; not an oracle) ----
+		backlog := func() (recordPending, deadObjs, garbageObjs int, ok bool) {
+			bins, gerr := sh.metaBase.GetGarbage(1 << 20)
+			if gerr != nil {
+				return 0, 0, 0, false
+			}
+			for _, b := range bins {
+				switch {
+				case len(b.Objects) == 0:
+					recordPending++
+				case dead[b.Container]:
+					deadObjs += len(b.Objects)
+				default:
+					garbageObjs += len(b.Objects)
+				}
+			}
+			return recordPending, deadObjs, garbageObjs, true
+		}
+		switch stage {
+		case "one-pass":
+			sh.removeGarbage()
+		case "container-record-pending":
+			for i := 0; i < 40; i++ {
+				if rp, _, _, ok := backlog(); !ok || rp > 0 {
+					break
+				}
+				sh.removeGarbage()
+			}
+		case "drained":
+			for i := 0; i < 60; i++ {
+				if rp, d, g, ok := backlog(); !ok || rp+d+g == 0 {
+					break
+				}
+				sh.removeGarbage()
+			}
 		}
 		env.pay.mu.Lock()
 		env.pay.unpaid[cnrUnpaid] = 0 // long unpaid from the point of view of every epoch >= 3
@@ -449,13 +530,17 @@ func TestVerif_C14(t *testing.T) {
 		if withWC && rng.IntN(2) == 0 {
 			_ = sh.FlushWriteCache(false)
 		}
-		// late content: stays in the write-cache / stays garbage-marked when the mode flips
+		// late content: stays in the write-cache / stays garbage-marked / stays in a removed
+		// container when the mode flips
 		for i := 0; i < 3; i++ {
 			add(newObj(cnrs[rng.IntN(len(cnrs))]), true, "late-plain")
 		}
 		for i := 0; i < 4; i++ {
 			g := add(newObj(cnrs[0]), false, "garbage-marked")
 			garbage = append(garbage, g)
+		}
+		for i := 0; i < 2; i++ {
+			add(newObj(cnrGoneLate), false, "in-removed-container-late")
 		}
 		if !okFill {
 			stop()
@@ -466,23 +551,65 @@ func TestVerif_C14(t *testing.T) {
 			if i%2 == 1 {
 				mk = meta.GarbageMarkRedundant
 			}
-			if err := sh.MarkGarbage(g.addr.Container(), []oid.ID{g.addr.Object()}, mk); err != nil {
-				r.Inconclusive("fill: mark garbage: " + err.Error())
-				stop()
+			if fillErr("mark garbage", sh.MarkGarbage(g.addr.Container(), []oid.ID{g.addr.Object()}, mk)) {
 				return
 			}
 		}
+		if fillErr("inhume late container", sh.InhumeContainer(cnrGoneLate)) {
+			return
+		}
 		never := []oid.Address{oid.NewAddress(cnrs[0], verifkit.RandOID(rng)), oid.NewAddress(verifkit.RandCID(rng), verifkit.RandOID(rng))}
+		if rp, d, g, ok := backlog(); ok {
+			if rp > 0 {
+				r.Count("entries_with_removed_container_record_pending|"+entry, 1)
+			}
+			if d > 0 {
+				r.Count("entries_with_removed_container_objects_pending", 1)
+			}
+			if g > 0 {
+				r.Count("entries_with_garbage_objects_pending", 1)
+			}
+			if rp+d+g == 0 {
+				r.Count("entries_with_empty_gc_backlog", 1)
+			}
+		}
 
 		violated := false
 		for phase, m := range seq {
 			if violated {
 				break
 			}
+			// ---- enter the mode ----
+			how := "runtime"
+			if phase == 0 {
+				how = entry
+			}
 			var serr error
-			if r.Guard(desc, func() { serr = sh.SetMode(m) }) {
-				violated = true
-				break
+			if how == "config" {
+				// the node is stopped and started again with the mode in the shard's configuration
+				if cerr := sh.Close(); cerr != nil {
+					r.Inconclusive(fmt.Sprintf("case %d: close before restart: %v", ci, cerr))
+					_ = os.RemoveAll(dir)
+					return
+				}
+				shClosed = true
+				var oerr error
+				if r.Guard(desc, func() { oerr = env.open(realTimer, WithMode(m)) }) {
+					violated = true
+					break
+				}
+				if oerr != nil {
+					r.Inconclusive(fmt.Sprintf("case %d: restart with configured mode %s: %v", ci, m, oerr))
+					_ = os.RemoveAll(dir)
+					return
+				}
+				sh, shClosed = env.sh, false
+				r.Count("entries_by_restart_with_configured_mode", 1)
+			} else {
+				if r.Guard(desc, func() { serr = sh.SetMode(m) }) {
+					violated = true
+					break
+				}
 			}
 			if serr != nil {
 				// a refused/failed transition is C43's subject; nothing to monitor in this mode
@@ -490,8 +617,37 @@ func TestVerif_C14(t *testing.T) {
 				r.Seen("mode_switch_error_texts", fmt.Sprintf("%v->%v: %s", sh.GetMode(), m, vf14ErrClass(serr)))
 				break
 			}
+			if how == "aborted-rw-return" {
+				// an operator/engine tries to bring the shard back to read-write; a component
+				// (not the first one) fails, SetMode reports the error, the shard stays in m
+				comps := []string{"blobstor"}
+				if withWC {
+					comps = append(comps, "writecache")
+				}
+				site := "shard.setmode." + comps[rng.IntN(len(comps))]
+				hooks.FailAlways(site, vf14ErrInjected)
+				var rerr error
+				p := r.Guard(desc, func() { rerr = sh.SetMode(mode.ReadWrite) })
+				hooks.ClearFaults()
+				if p {
+					violated = true
+					break
+				}
+				if !errors.Is(rerr, vf14ErrInjected) {
+					if rerr == nil {
+						r.Inconclusive("fault point " + site + " not reached: return to read-write could not be aborted")
+					} else {
+						r.Count("mode_switch_errors", 1)
+						r.Seen("mode_switch_error_texts", fmt.Sprintf("%v->READ_WRITE: %s", m, vf14ErrClass(rerr)))
+					}
+					break
+				}
+				r.Count("entries_after_aborted_return_to_read_write", 1)
+				r.Seen("aborted_return_failed_component", site)
+				desc["aborted_at"] = site
+			}
 			if sh.GetMode() != m {
-				r.Inconclusive(fmt.Sprintf("case %d: SetMode(%s) returned nil but shard reports %s", ci, m, sh.GetMode()))
+				r.Inconclusive(fmt.Sprintf("case %d: shard entered %s via %s but reports %s", ci, m, how, sh.GetMode()))
 				break
 			}
 			s0, err := env.snapshot()
@@ -501,6 +657,9 @@ func TestVerif_C14(t *testing.T) {
 			}
 			r.Count("snapshots_files", len(s0.files))
 			r.Count("snapshots_meta_kv", s0.nKV)
+			if s0.own {
+				r.Count("mode_entries_with_writable_metabase_handle", 1)
+			}
 			nWC := 0
 			for k := range s0.files {
 				if len(k) > 7 && k[:7] == "wcache/" && k[len(k)-1] != '/' {
@@ -511,8 +670,18 @@ func TestVerif_C14(t *testing.T) {
 				r.Count("mode_entries_with_unflushed_cache_files", 1)
 			}
 			r.Eval(1)
+			r.Seen("entries_seen", fmt.Sprintf("%s|%s", m, how))
+			nPlain := 0
+			for _, u := range uni {
+				if u.plain {
+					nPlain++
+				}
+			}
 
 			nSteps := 40 + rng.IntN(r.Pick(40, 80))
+			const nKinds = 22
+			order := rng.Perm(nKinds) // every step kind at least once in every mode period
+			nChanges := 0
 			var trace []string
 			for step := 0; step < nSteps && !violated; step++ {
 				kind, class := "", ""
@@ -520,10 +689,14 @@ func TestVerif_C14(t *testing.T) {
 				modifying := true
 				pick := uni[rng.IntN(len(uni))]
 				stepDesc := func() map[string]any {
-					return map[string]any{"case": ci, "write_cache": withWC, "real_gc_timer": realTimer, "modes": fmt.Sprint(seq), "phase": phase, "mode": m.String(), "step": step, "kind": kind, "target": pick.note, "trace_tail": trace[max(0, len(trace)-12):]}
+					return map[string]any{"case": ci, "entry": entry, "gc_backlog_stage": stage, "write_cache": withWC, "real_gc_timer": realTimer, "modes": fmt.Sprint(seq), "epoch_before": epoch0, "aborted_at": desc["aborted_at"], "phase": phase, "mode": m.String(), "entered_by": how, "step": step, "kind": kind, "target": pick.note, "trace_tail": trace[max(0, len(trace)-12):]}
+				}
+				k := rng.IntN(nKinds)
+				if step < nKinds {
+					k = order[step]
 				}
 				panicked := r.Guard(desc, func() {
-					switch k := rng.IntN(22); k {
+					switch k {
 					case 0:
 						kind = "put-new"
 						opErr = sh.Put(newObj(cnrs[rng.IntN(len(cnrs))]), nil)
@@ -606,7 +779,7 @@ func TestVerif_C14(t *testing.T) {
 							env.pay.entered = ent
 							env.pay.mu.Unlock()
 							sh.NotificationChannel() <- EventNewEpoch(e)
-							if !verifkit.WaitOrTimeout(ent, 120*time.Second) {
+							if !verifkit.WaitOrTimeout(ent, 300*time.Second) {
 								class = "watchdog"
 							} else {
 								sh.gc.mEventHandler[eventNewEpoch].prevGroup.Wait()
@@ -619,10 +792,15 @@ func TestVerif_C14(t *testing.T) {
 					case 17:
 						kind = "dump"
 						modifying = false
-						_, derr := sh.Dump(io.Discard, false)
+						n, derr := sh.Dump(io.Discard, false)
 						class = vf14ErrClass(derr)
 						if derr != nil {
-							r.Violation("read|dump-fails|"+m.String(), fmt.Sprintf("Dump (a read operation that requires a read-only mode) failed in %s: %v", m, derr), stepDesc())
+							r.Violation(fmt.Sprintf("read|dump-fails|%s|entry=%s", m, how), fmt.Sprintf("Dump (a read operation that requires a read-only mode) failed in %s (entered by %s): %v", m, how, derr), stepDesc())
+						} else if n < nPlain {
+							// every plainly available object is stored in the blob storage or in the
+							// write-cache; a dump of a read-only shard has to carry all of them
+							class = "incomplete"
+							r.Violation(fmt.Sprintf("read|dump-incomplete|%s|entry=%s", m, how), fmt.Sprintf("Dump in %s (entered by %s) carried %d objects while %d plainly available objects are stored", m, how, n, nPlain), stepDesc())
 						}
 					default:
 						kind = "reads"
@@ -643,13 +821,13 @@ func TestVerif_C14(t *testing.T) {
 					class = vf14ErrClass(opErr)
 					r.Count("modifying_requests", 1)
 					if !vf14IsModeErr(opErr) {
-						r.Violation(fmt.Sprintf("no-mode-error|%s|%s", kind, m), fmt.Sprintf("%s in %s returned %q instead of the shard's mode error", kind, m, class), stepDesc())
+						r.Violation(fmt.Sprintf("no-mode-error|%s|%s|entry=%s", kind, m, how), fmt.Sprintf("%s in %s (entered by %s) returned %q instead of the shard's mode error", kind, m, how, class), stepDesc())
 					} else {
 						r.Count("modifying_requests_refused_with_mode_error", 1)
 					}
 				}
 				trace = append(trace, kind+":"+class)
-				r.Distinct(fmt.Sprintf("%s|%v|%s|%s", m, withWC, kind, class))
+				r.Distinct(fmt.Sprintf("%s|%s|%v|%s|%s", m, how, withWC, kind, class))
 				r.Seen("step_kinds", kind)
 				r.Count("steps", 1)
 
@@ -666,51 +844,63 @@ func TestVerif_C14(t *testing.T) {
 					o, gerr := sh.Get(u.addr, false)
 					switch {
 					case u.plain && gerr != nil:
-						r.Violation(fmt.Sprintf("read|available-object-unreadable|%s", m), fmt.Sprintf("%s object %s unreadable in %s: %v", u.note, u.addr, m, gerr), stepDesc())
+						r.Violation(fmt.Sprintf("read|available-object-unreadable|%s|entry=%s", m, how), fmt.Sprintf("%s object %s unreadable in %s: %v", u.note, u.addr, m, gerr), stepDesc())
 					case gerr == nil && !bytes.Equal(o.Marshal(), u.bin):
-						r.Violation(fmt.Sprintf("read|bytes-differ|%s", m), fmt.Sprintf("%s object read back with different bytes in %s", u.note, m), stepDesc())
+						r.Violation(fmt.Sprintf("read|bytes-differ|%s|entry=%s", m, how), fmt.Sprintf("%s object read back with different bytes in %s", u.note, m), stepDesc())
 					case u.tombed && gerr == nil && !m.NoMetabase():
-						r.Violation(fmt.Sprintf("read|tombstoned-object-readable|%s", m), fmt.Sprintf("tombstoned object %s readable in %s", u.addr, m), stepDesc())
+						r.Violation(fmt.Sprintf("read|tombstoned-object-readable|%s|entry=%s", m, how), fmt.Sprintf("tombstoned object %s readable in %s", u.addr, m), stepDesc())
 					}
 					if u.plain {
 						if b, berr := sh.GetBytes(u.addr); berr != nil || !bytes.Equal(b, u.bin) {
-							r.Violation(fmt.Sprintf("read|getbytes|%s", m), fmt.Sprintf("GetBytes of %s object in %s: err=%v", u.note, m, berr), stepDesc())
+							r.Violation(fmt.Sprintf("read|getbytes|%s|entry=%s", m, how), fmt.Sprintf("GetBytes of %s object in %s: err=%v", u.note, m, berr), stepDesc())
 						}
 						if ex, eerr := sh.Exists(u.addr, false); eerr != nil || !ex {
-							r.Violation(fmt.Sprintf("read|exists|%s", m), fmt.Sprintf("Exists of %s object in %s: %v/%v", u.note, m, ex, eerr), stepDesc())
+							r.Violation(fmt.Sprintf("read|exists|%s|entry=%s", m, how), fmt.Sprintf("Exists of %s object in %s: %v/%v", u.note, m, ex, eerr), stepDesc())
 						}
 						if h, herr := sh.Head(u.addr, false); herr != nil || h.GetID() != u.addr.Object() {
-							r.Violation(fmt.Sprintf("read|head|%s", m), fmt.Sprintf("Head of %s object in %s: %v", u.note, m, herr), stepDesc())
+							r.Violation(fmt.Sprintf("read|head|%s|entry=%s", m, how), fmt.Sprintf("Head of %s object in %s: %v", u.note, m, herr), stepDesc())
 						}
 					}
 					r.Count("reads_checked", 1)
 				}
 				for _, a := range never {
 					if _, gerr := sh.Get(a, false); gerr == nil {
-						r.Violation(fmt.Sprintf("read|never-stored-readable|%s", m), fmt.Sprintf("never stored %s readable in %s", a, m), stepDesc())
+						r.Violation(fmt.Sprintf("read|never-stored-readable|%s|entry=%s", m, how), fmt.Sprintf("never stored %s readable in %s", a, m), stepDesc())
 					}
 				}
 				if !m.NoMetabase() && kind == "reads" {
 					if lst, lerr := sh.List(); lerr != nil {
-						r.Violation(fmt.Sprintf("read|list|%s", m), fmt.Sprintf("List failed in %s: %v", m, lerr), stepDesc())
+						r.Violation(fmt.Sprintf("read|list|%s|entry=%s", m, how), fmt.Sprintf("List failed in %s: %v", m, lerr), stepDesc())
 					} else {
 						r.Count("listings", 1)
 						_ = lst
 					}
 					for _, tg := range lockTargets {
 						if l, lerr := sh.IsLocked(tg.addr); lerr != nil {
-							r.Violation(fmt.Sprintf("read|is-locked|%s", m), fmt.Sprintf("IsLocked failed in %s: %v", m, lerr), stepDesc())
+							r.Violation(fmt.Sprintf("read|is-locked|%s|entry=%s", m, how), fmt.Sprintf("IsLocked failed in %s: %v", m, lerr), stepDesc())
 						} else if l {
 							r.Count("locks_seen", 1)
 						}
 					}
 				}
 
-				// optional dwell so that the write-cache flush scheduler (1 s tick) and the GC timer run
+				// dwell until the write-cache flush scheduler (1 s ticker) has handed a batch to a
+				// flush worker and the worker is done with it - a logical condition observed at the
+				// repository's instrumentation point, not a sleep of a fixed length; if the generous
+				// watchdog fires the run just goes on (no verdict depends on it)
 				if withWC && nWC > 0 && dwellLeft > 0 && step == nSteps/2 {
 					dwellLeft--
-					time.Sleep(1300 * time.Millisecond)
-					r.Count("dwells_over_flush_scheduler_tick", 1)
+					c0 := hooks.Counts()["writecache.worker.done"]
+					seen := false
+					for i := 0; i < 12000 && !seen; i++ {
+						time.Sleep(5 * time.Millisecond)
+						seen = hooks.Counts()["writecache.worker.done"] > c0
+					}
+					if seen {
+						r.Count("dwells_over_flush_worker_round", 1)
+					} else {
+						r.Count("dwells_without_flush_worker_round", 1)
+					}
 				}
 
 				// (1) persisted state must equal the snapshot taken at mode entry
@@ -721,9 +911,15 @@ func TestVerif_C14(t *testing.T) {
 					break
 				}
 				r.Count("snapshot_comparisons", 1)
-				if comp, d := vf14Diff(s0, s1); comp != "" {
-					r.Violation(fmt.Sprintf("state-changed|%s|%s|after=%s", m, comp, kind), fmt.Sprintf("persisted %s state changed while the shard was %s (step %d %s:%s): %s", comp, m, step, kind, class, d), stepDesc())
-					violated = true
+				if chg := vf14Diff(s0, s1); len(chg) > 0 {
+					for _, c := range chg {
+						r.Violation(fmt.Sprintf("state-changed|%s|entry=%s|%s|%s", m, how, c.comp, c.shape), fmt.Sprintf("persisted %s state changed while the shard was %s (entered by %s; seen after step %d %s:%s): %s", c.comp, m, how, step, kind, class, c.detail), stepDesc())
+					}
+					// go on from the new state so that later, different changes are reported too
+					s0 = s1
+					if nChanges++; nChanges >= 4 {
+						violated = true
+					}
 				}
 			}
 		}
@@ -734,5 +930,8 @@ func TestVerif_C14(t *testing.T) {
 	}
 	if r.Counter("modifying_requests") == 0 || r.Counter("snapshot_comparisons") == 0 {
 		r.Inconclusive("nothing was monitored")
+	}
+	if r.Counter("entries_by_restart_with_configured_mode") == 0 || r.Counter("mode_entries_with_writable_metabase_handle") == 0 {
+		r.Inconclusive("no read-only period entered by restart with a configured mode was monitored")
 	}
 }
